@@ -44,8 +44,8 @@ var barAscii = [...]rune{
 
 const barUnicodePartCount = len(barUnicode)
 
-// write a length of runes for a given bar parameters
-func barWriteRunes(w io.StringWriter, blockChar rune, val, maxVal, maxLen int64) {
+// write a length of runes for a given bar parameters, never more than limit; returns how many were written
+func barWriteRunes(w io.StringWriter, blockChar rune, val, maxVal, maxLen, limit int64) (written int64) {
 	if maxVal <= 0 { // nothing to scale against (all totals zero or negative)
 		return
 	}
@@ -54,10 +54,15 @@ func barWriteRunes(w io.StringWriter, blockChar rune, val, maxVal, maxLen int64)
 	}
 
 	blocks := val * maxLen / maxVal
+	if blocks > limit {
+		blocks = limit
+	}
 	for blocks > 0 {
 		w.WriteString(string(blockChar))
 		blocks--
+		written++
 	}
+	return
 }
 
 // Write a bar, possibly with partial runes. Not to be used with stacking
@@ -105,6 +110,10 @@ func BarKey(idx int) string {
 
 // Write a bar with a series of values, stacked with runes based on the global context
 func BarWriteStacked(w io.StringWriter, maxVal, maxLen int64, vals ...int64) {
+	// the segments together never exceed the bar (negative segments draw nothing, but lower the
+	// total that the caller takes the maximum from)
+	remaining := maxLen
+
 	if color.Enabled {
 		// Have color, so use it as the 'key'
 
@@ -115,13 +124,13 @@ func BarWriteStacked(w io.StringWriter, maxVal, maxLen int64, vals ...int64) {
 
 		for i := 0; i < len(vals); i++ {
 			color.Write(w, color.GroupColors[i%len(color.GroupColors)], func(w io.StringWriter) {
-				barWriteRunes(w, blockChar, vals[i], maxVal, maxLen)
+				remaining -= barWriteRunes(w, blockChar, vals[i], maxVal, maxLen, remaining)
 			})
 		}
 	} else {
 		// No color, so must use ascii char
 		for i := 0; i < len(vals); i++ {
-			barWriteRunes(w, barAscii[i%len(barAscii)], vals[i], maxVal, maxLen)
+			remaining -= barWriteRunes(w, barAscii[i%len(barAscii)], vals[i], maxVal, maxLen, remaining)
 		}
 	}
 }
